@@ -177,8 +177,31 @@ def long_fanout(rng):
     return [("prim", 1), part], [0, cont]
 
 
+def confusable_matches(rng):
+    """a fan-out that matches exactly the nodes whose concrete paths could be CONFUSED when rendered as text: keys that
+    differ only in type ("1" / 1, "True" / True, "0" / 0 / 0.0-less), keys that contain the delimiter ("a/b" + "c" against
+    "a" + "b/c"): they are different nodes, .single() must refuse them, every pair is reported with its own path"""
+    r = rng.random()
+    fan = lambda rk: {"rk": rk, "key": None, "index": None, "value": None, "cond": None, "label": None}   # noqa: E731
+    if r < 0.5:
+        k = rng.choice([1, 0, 2, True])
+        cont = {str(k) if not isinstance(k, bool) else "True": rng.choice([5, "x"]), k: rng.choice([6, "y"])}
+        if rng.random() < 0.5:
+            cont = dict(reversed(list(cont.items())))
+        return [fan(rng.choice(["map", "mol"]))], cont
+    if r < 0.8:
+        doc = {"a/b": {"c": 1}, "a": {"b/c": 2}}
+        return [fan("map"), fan(rng.choice(["map", "mol"]))], doc
+    doc = {"x": {"1": [1], 1: [2]}, "y": 0}
+    return [("prim", "x"), fan("map"), ("prim", 0)], doc
+
+
 def random_cases(rng, n, modifiers):
     for _ in range(n):
+        if modifiers and rng.random() < 0.03:
+            rparts, doc = confusable_matches(rng)
+            yield rparts, rng.choice(DTS[:3]), rng.choice(["single", "single", "first", "all", "none"]), rng.choice(["dm", "md"]), doc
+            continue
         doc = gen.document(rng, depth=rng.choice([2, 3, 3, 4]), strish=0.65)
         rparts = gen.path_recipe(rng, doc)
         if rng.random() < 0.04:
